@@ -367,7 +367,7 @@ pub fn checks() -> Vec<CheckSpec> {
             &["byte stream: SimPipe with virtual latency", "peers and handlers: scripted"],
             &["clock read through hook H1; all virtual instants are whole milliseconds"]),
         spec("C08", "exploration",
-            vec![gen("server.general", 2, g_server_general), gen("server.dups", 3, g_server_dups), gen("server.cancel", 1, g_server_cancel), gen("server.shutdown", 1, g_server_shutdown), gen("server.parked", 1, g_server_parked), gen("server.long", 1, g_server_long)],
+            vec![gen("server.general", 2, g_server_general), gen("server.dups", 3, g_server_dups), gen("server.cancel", 1, g_server_cancel), gen("server.shutdown", 1, g_server_shutdown), gen("server.parked", 1, g_server_parked), gen("server.deadlines", 1, g_server_deadlines), gen("server.long", 1, g_server_long)],
             q, t,
             "scripted peer sends fresh ids, duplicates while in flight, ids reused after their response, cancels and close; handlers complete in every order; response buffer 1,2,3,100",
             SERVER_REAL, SERVER_STUB, &["id reuse after cancel/expiry with a still-buffered response is outside the property's quantifier and excluded from response attribution"]),
@@ -417,7 +417,7 @@ pub fn checks() -> Vec<CheckSpec> {
             "boundary-valued deadlines (0, 2^36 ms +-1, 100 and 8000 years, u64::MAX s, max nanos) from callers and peers, with no subscriber / fmt subscriber / OpenTelemetry SDK layer",
             BOTH_REAL, BOTH_STUB, &[]),
         spec("C18", "exploration",
-            vec![gen("client.trace", 2, g_client_trace), gen("client.abandon", 1, g_client_abandon), gen("client.general", 1, g_client_general), gen("server.general", 1, g_server_general), gen("e2e.trace", 3, g_e2e_trace), gen("stubs.retry", 1, g_stubs_retry)],
+            vec![gen("client.trace", 2, g_client_trace), gen("client.abandon", 1, g_client_abandon), gen("client.general", 1, g_client_general), gen("server.general", 1, g_server_general), gen("server.limit", 1, g_server_limit), gen("e2e.trace", 3, g_e2e_trace), gen("stubs.retry", 1, g_stubs_retry)],
             q, t,
             "distinct caller-supplied trace ids and sampling decisions per call; wire Request/Cancel contexts and handler contexts compared",
             BOTH_REAL, BOTH_STUB, &[]),
